@@ -639,6 +639,7 @@ func (p *Prog) feasibleAt(at ssa.Instruction) func(blk *ssa.BasicBlock) []int {
 	type fact struct {
 		ph   *ssa.Phi
 		want bool
+		nilT bool // a nil test: want = "is non-nil"
 	}
 	var facts []fact
 	from := at.Block()
@@ -662,7 +663,19 @@ func (p *Prog) feasibleAt(at ssa.Instruction) func(blk *ssa.BasicBlock) []int {
 			break
 		}
 		if ph, ok := cond.(*ssa.Phi); ok && isBool(ph.Type()) {
-			facts = append(facts, fact{ph, want})
+			facts = append(facts, fact{ph, want, false})
+		}
+		// x != nil / x == nil on a joined pointer, error, ...
+		if bo, ok := cond.(*ssa.BinOp); ok && (bo.Op == token.EQL || bo.Op == token.NEQ) {
+			var other ssa.Value
+			if cn, isC := bo.Y.(*ssa.Const); isC && cn.IsNil() {
+				other = bo.X
+			} else if cn, isC := bo.X.(*ssa.Const); isC && cn.IsNil() {
+				other = bo.Y
+			}
+			if ph, isPh := other.(*ssa.Phi); isPh {
+				facts = append(facts, fact{ph, want == (bo.Op == token.NEQ), true})
+			}
 		}
 	}
 	if len(facts) == 0 {
@@ -680,6 +693,15 @@ func (p *Prog) feasibleAt(at ssa.Instruction) func(blk *ssa.BasicBlock) []int {
 			ok := true
 			for _, f := range facts {
 				if f.ph.Block() != blk {
+					continue
+				}
+				if f.nilT {
+					if nn, known := p.nilness(f.ph.Edges[k]); known {
+						constrained = true
+						if nn != f.want {
+							ok = false
+						}
+					}
 					continue
 				}
 				if cb, isC := f.ph.Edges[k].(*ssa.Const); isC && cb.Value != nil && cb.Value.Kind() == constant.Bool {
